@@ -601,4 +601,62 @@ theorem dispatch_arith_mi (c : Model.X86.Ctx) (row : Row) (m : Mem) (v : BitVec 
         simp at h
         simp [dispatch, henc, sig3, Op.kind, Op.rmSize, Op.immVal, hs, h, oLongForm]
 
+/-! ### class X86Rot: `op MEM, imm8` (C0|C1 /d ib; imm8 ≠ 1) -/
+
+def entryOkRotMi (e : Entry) : Bool :=
+  match e.rule.ops, e.kinds with
+  | [f0, f3], [k0] =>
+    let s := kindSize k0
+    !anyMemAlt f0 ||
+    (e.enc == 0x37 && (legRuleMDOk e.rule 1 ((finalOpRot e >>> 21) &&& 3#32).toNat (digitOf e).toNat && (legAgreeOk e.rule (finalOpRot e) &&
+    (finalOpRot e &&& 0xF780FC00#32 == 0#32 && (f0.role == .rm && (f3.role == .imm && (hasMemAlt f0 s && (immBitsOf f3 == 8 && !immSignCase e.rule f3))))))))
+  | _, _ => false
+
+theorem rotmi_entries_ok : lrotChunks.all (fun c => c.all entryOkRotMi) = true := by decide +kernel
+
+/-- **front_cls_correct, class X86Rot, `op MEM, imm8`**: memory operands of 1 / 2 / 4 / 8 bytes, every address form with an `AddrFormL`
+instance, every imm8 the form admits (the class masks the value to 8 bits; value 1 selects the shift-by-1 opcode instead). -/
+theorem front_cls_correct_rot_mi (e : Entry) (ch : List Entry) (hch : ch ∈ lrotChunks) (he : e ∈ ch)
+    (c : Model.X86.Ctx) (ctx : Spec.X86.Ctx) (xb : BitVec 32) (m : Mem) (mo : MemOp) (pfx : List (BitVec 8))
+    (mb : BitVec 32 → BitVec 8) (sib : Option (BitVec 8)) (ds : List (BitVec 8))
+    (AF : AddrFormL c ctx m mo pfx xb mb sib ds) (v : BitVec 64) (hm64 : ctx.mode64 = true)
+    (hsize : mo.size = kindSize (e.kinds.getD 0 .none))
+    (hmem : ∀ f0, e.rule.ops[0]? = some f0 → anyMemAlt f0 = true)
+    (himm : ∀ f3, e.rule.ops[1]? = some f3 → formOpMatches e.rule.oszEff f3 (.imm v) = true) :
+    ∃ bytes, emitX86M c (finalOpRot e) 0#32 (digitOf e) m (v &&& 0xFF#64) 1 = .ok bytes ∧ formOk ctx e.rule [.mem mo, .imm v] {} bytes = true := by
+  have hok := mem_chunks_ok rotmi_entries_ok e ch hch he
+  unfold entryOkRotMi at hok
+  split at hok
+  · rename_i f0 f3 k0 hops hkinds
+    have m3 : formOpMatches e.rule.oszEff f3 (.imm v) = true := himm f3 (by rw [hops]; rfl)
+    have hma0 := hmem f0 (by rw [hops]; rfl)
+    simp only [hkinds, List.getD_cons_zero] at hsize
+    simp only [hma0, Bool.not_true, Bool.false_or, Bool.and_eq_true, Bool.or_eq_true, beq_iff_eq, bne_iff_ne, ne_eq, Bool.not_eq_true', decide_eq_true_eq] at hok
+    obtain ⟨-, hR, hA, hmask, ra, r3, hma, hb8, hsc⟩ := hok
+    obtain ⟨R, hmode⟩ := legRuleMDOk_spec _ _ _ _ hR
+    have A := (legAgreeOk_spec _ _ hA).1
+    have hal : alignOps e.rule.oszEff e.rule.ops [.mem mo, .imm v] = some [(f0, some (.mem mo)), (f3, some (.imm v))] := by
+      rw [hops]
+      exact alignOps2 _ _ _ _ _ (hasMemAlt_matches _ _ _ _ hma hsize AF.hvsib) m3
+    have hd : digitOf e < 8#32 := by simp only [digitOf]; bv_decide
+    exact legM_mi_formOk c ctx e.rule (finalOpRot e) (digitOf e) xb m mo pfx mb sib ds AF f0 f3 (digitOf e).toNat v (v &&& 0xFF#64) 1 hm64 hmode hmask
+      hd R (by intro _; rfl) A ra (by
+        intro p hp
+        refine immConds_ok ctx e.rule p f3 v r3 (by rw [hb8]; decide) R.hrev ?_
+        have hn : immBytesOf (immBitsOf f3) = 1 := by rw [hb8]; decide
+        rw [hn, hp, take_emitImmediate]
+        have hsc' : (immSignOf f3 == 1 && e.rule.oszEff != 0 && decide (8 * 1 < e.rule.oszEff)) = immSignCase e.rule f3 := by
+          simp [immSignCase, hn]
+        rw [hsc', hsc, emitImmediate_and8, emitImmediate_leBytes]
+        simp) hal
+  · simp at hok
+
+theorem dispatch_rot_mi (c : Model.X86.Ctx) (row : Row) (m : Mem) (v : BitVec 64) (henc : row.encoding = 0x37) (hsz : m.size ≠ 0)
+    (hne : v &&& 0xFF#64 ≠ 1#64) :
+    dispatch c row 0#32 (.mem m) (.imm v) .none .none =
+      emitX86M c (addArithBySize row.mainOp m.size - 0x10#32) 0#32 ((row.mainOp >>> 18) &&& 7#32) m (v &&& 0xFF#64) 1 := by
+  have h : (m.size == 0) = false := by simpa using hsz
+  have hne' : (v &&& 0xFF#64 == 1#64) = false := by simpa using hne
+  simp [dispatch, henc, sig3, Op.kind, Op.rmSize, Op.immVal, h, hne']
+
 end AsmjitVerif.Props.C01
